@@ -100,7 +100,7 @@ def morphOf (c0 cj : Int) (v : CVec) : Nat :=
 
 /-- `compute_morph_array(chroma_array, chroma_vector_array)`; `c0` is `chroma_array[0]` -/
 def morphArray (c0 : Nat) (chroma : List Nat) (vecs : List CVec) : List Nat :=
-  List.zipWith (fun cj v => morphOf c0 cj v) chroma vecs
+  List.zipWith (fun (cj : Nat) v => morphOf c0 cj v) chroma vecs
 
 -- ------------------------------------------------------------------ morphetic pitch, pitch names
 
